@@ -242,8 +242,15 @@ func ParseSpecFile(path string) (*SpecFile, error) {
 			code := strings.TrimSpace(strings.TrimPrefix(trim, "lemma"))
 			nm := funcNameOf("func " + code)
 			lm := &Lemma{Name: nm, Func: "gvcL_" + nm, Line: ln + 1}
-			if m := regexp.MustCompile(`^(C\d+)_`).FindStringSubmatch(nm); m != nil {
-				lm.Props = []string{m[1]}
+			// C01_Name, or C01_C11_Name for a lemma that serves several properties
+			rest := nm
+			for {
+				m := regexp.MustCompile(`^(C\d+)_`).FindStringSubmatch(rest)
+				if m == nil {
+					break
+				}
+				lm.Props = append(lm.Props, m[1])
+				rest = rest[len(m[0]):]
 			}
 			sf.Lemmas = append(sf.Lemmas, lm)
 			sf.body.WriteString("func gvcL_" + rewriteLine(code))
